@@ -26,11 +26,11 @@ structure DSt where
 
 def parseOutcome : String → Outcome
   | "done" => .done | "doneFinishFail" => .doneFinishFail | "notDone" => .notDone | "fail" => .fail
-  | "failCtx" => .failCtx | "fatal" => .fatal | "crash" => .crash | _ => .done
+  | "failCtx" => .failCtx | "fatal" => .fatal | "crash" => .crash | "notDoneFin" => .notDoneFin | _ => .done
 
 def showOutcome : Outcome → String
   | .done => "done" | .doneFinishFail => "doneFinishFail" | .notDone => "notDone" | .fail => "fail"
-  | .failCtx => "failCtx" | .fatal => "fatal" | .crash => "crash"
+  | .failCtx => "failCtx" | .fatal => "fatal" | .crash => "crash" | .notDoneFin => "notDoneFin"
 
 def parseFilter (j : Json) : Filter :=
   { type := match jStr j "type" with | "tx" => some .tx | "payload" => some .payload | _ => none
@@ -58,7 +58,8 @@ def mkCfg (d : DSt) (nsubs : Nat) (rows : List BehRow) : Cfg :=
     beh := behOf rows
     maxRetries := Nuts.Facts.C14.maxRetries
     failedThreshold := Nuts.Facts.C14.retriesFailedThreshold
-    skipPresent := Nuts.Facts.C14.writePayloadSkipsPresent }
+    skipPresent := Nuts.Facts.C14.writePayloadSkipsPresent
+    writeBackSkipsGone := Nuts.Facts.C14.writeBackSkipsGone }
 
 def showEntry : Entry → Option String
   | .call s r t ret o => some s!"{s}.{r}:{showType t}:{ret}:{showOutcome o}"
